@@ -47,6 +47,20 @@ def exact_unit(ctx, src):
                           SYS(), Rule('data.data()', 'vstr_data(data)', count=1),
                           Rule(r'data\.resize\((\w+)\);', r"vstr_resize(data, \1, '\\\\0');", count=1, regex=True),
                           Rule('return data;', 'return;', count=1)], ret_zero='')
+    # whole files: the local scoped_fd becomes a plain descriptor obtained from the open stub (its destructor call at scope
+    # exit is dropped: "closed exactly once" is the subject of the scoped_fd groups)
+    OPEN = Rule(r'scoped_fd fd\(filename, ([^;]+)\);', r'int fd = c14_open(filename, \1); if (verif_exc) return;', count=1, regex=True)
+    u.raw('#include <fcntl.h>\n#include <errno.h>\n')
+    u.function(src, CC, r'string load_file\(const string& filename\)', new_header='void phosg_load_file(vstr* data, const vstr* filename)',
+               rules=[OPEN, Rule('fstat(fd).st_size', 'c14_fstat_size(fd)', count=1),
+                      Rule(r'string data\(file_size, 0\);', 'vstr_resize(data, file_size, 0);', count=1, regex=True),
+                      SYS(1), Rule('data.data()', 'vstr_data(data)', count=1), Rule('data.size()', 'vstr_size(data)', count=1),
+                      Rule('return data;', 'return;', count=1)], may_throw=['c14_fstat_size'], ret_zero='')
+    u.function(src, CC, r'void save_file\(const string& filename, const void\* data, size_t size\)',
+               new_header='void phosg_save_file(const vstr* filename, const void* data, size_t size)', rules=[OPEN, SYS(1)], ret_zero='')
+    u.function(src, CC, r'void save_file\(const string& filename, const string& data\)',
+               new_header='void phosg_save_file_str(const vstr* filename, const vstr* data)',
+               rules=[Rule('save_file(filename, data.data(), data.size());', 'phosg_save_file(filename, data->data, data->size);', count=1)])
     return u
 
 
@@ -75,7 +89,7 @@ def read_all_rules():
         Rule(r'buffers\.emplace_back\(', 'vsv_emplace_back(&buffers, ', count=1, regex=True),
         Rule('buffers.back().data()', 'vsv_back_data(&buffers)', count=1),
         SYS('+'),
-        Rule(r'buffers\.back\(\)\.resize\(', 'vsv_back_resize(&buffers, ', count=1, regex=True),
+        Rule(r'buffers\.back\(\)\.resize\(', 'vsv_back_resize(&buffers, ', count=None, regex=True),
         Rule('buffers.size()', 'vsv_size(&buffers)', count=1),
         Rule('return buffers.back();', '{ vsv_copy_back(ret, &buffers); return; }', count=1),
         Rule(r'string ret;', '', count=1, regex=True),
@@ -102,7 +116,7 @@ def loops_unit(ctx, src):
                       Rule(r'\bblock\.(data|c_str)\(\)', 'vsv_back_data(&blocks)', count=2, regex=True),
                       Rule('block.size()', 'vsv_back_size(&blocks)', count=1),
                       Rule(r'\bblock\[([^\]]+)\]', r'vsv_back_at(&blocks, \1)', count=1, regex=True),
-                      Rule(r'\bblock\.resize\(', 'vsv_back_resize(&blocks, ', count=1, regex=True),
+                      Rule(r'\bblock\.resize\(', 'vsv_back_resize(&blocks, ', count=None, regex=True),
                       Rule('blocks.pop_back();', 'vsv_pop_back(&blocks);', count=1),
                       Rule('blocks.size()', 'vsv_size(&blocks)', count=1),
                       Rule('return move(blocks.front());', '{ vsv_front_out(ret, &blocks); return; }', count=1),
@@ -209,7 +223,7 @@ def plan(ctx):
         groups.append(Group(name='Filesystem.' + fn, harness=H, entry='h_' + fn, function=cxx, enforce='phosg_' + fn, replace=replace,
                             clause_note='returns normally iff the one underlying call transferred exactly `size` bytes; then the buffer holds '
                                         'exactly those stream bytes (ghost index); otherwise io_error',
-                            replay=Replay(driver='C14/fs.cc', mode=mode, extra=[fn], sources=ALL_LIB)))
+                            replay=Replay(driver='C14/fs.cc', mode=mode, extra=[fn], sources=ALL_LIB, small_define='VERIF_SMALL')))
     E('readx', 'readx(int, void*, size_t)', ['c14_read'])
     E('readx_str', 'readx(int, size_t)', ['phosg_readx', 'vstr_resize'])
     E('writex', 'writex(int, const void*, size_t)', ['c14_write'])
@@ -225,22 +239,25 @@ def plan(ctx):
     E('fgetcx', 'fgetcx(FILE*)', ['c14_fgetc', 'c14_feof'])
     E('read_str', 'read(int, size_t)', ['c14_read', 'vstr_resize'])
     E('fread_str', 'fread(FILE*, size_t)', ['c14_fread', 'vstr_resize'])
+    E('load_file', 'load_file', ['c14_open', 'c14_fstat_size', 'c14_read', 'vstr_resize'])
+    E('save_file', 'save_file(const string&, const void*, size_t)', ['c14_open', 'c14_write'])
+    E('save_file_str', 'save_file(const string&, const string&)', ['phosg_save_file'])
     ul = loops_unit(ctx, src)
     ul.write()
     ctx.functions_under_contract += ul.functions
     HL = 'harness/C14/loops.c'
     VS = ['vstr_assign', 'vstr_append', 'vsv_at']
     groups.append(Group(name='Filesystem.read_all(fd)', harness=HL, entry='h_read_all_fd', function='read_all(int)', enforce='phosg_read_all_fd',
-                        replace=['c14_read'] + VS, loops=True, kind='loop-contract', timeout=300,
+                        replace=['c14_read'] + VS, loops=True, kind='loop-contract', timeout=300, fallback_unwind=4,
                         clause_note='returns exactly the g_src_len bytes of the ghost stream, only after read() reported end-of-file; io_error iff read() failed',
                         replay=Replay(driver='C14/fs.cc', mode='read_all_fd', sources=ALL_LIB, small_define='VERIF_SMALL')))
     groups.append(Group(name='Filesystem.read_all(FILE*)', harness=HL, entry='h_read_all_file', function='read_all(FILE*)', enforce='phosg_read_all_file',
-                        replace=['c14_fread'] + (['c14_ferror'] if 'c14_ferror(' in ul.text().split('phosg_read_all_file')[1] else []) + VS, loops=True, kind='loop-contract', timeout=300,
+                        replace=['c14_fread'] + (['c14_ferror'] if 'c14_ferror(' in ul.text().split('phosg_read_all_file')[1] else []) + VS, loops=True, kind='loop-contract', timeout=300, fallback_unwind=4,
                         replay=Replay(driver='C14/fs.cc', mode='read_all_file', sources=ALL_LIB, small_define='VERIF_SMALL')))
     groups.append(Group(name='Filesystem.fgets(FILE*)', harness=HL, entry='h_fgets', function='fgets(FILE*)', enforce='phosg_fgets',
-                        replace=['c14_fgets', 'c14_feof', 'c14_strlen', 'vsv_concat_out'], loops=True, kind='loop-contract', timeout=300,
+                        replace=['c14_fgets', 'c14_feof', 'c14_strlen', 'vsv_concat_out'], loops=True, kind='loop-contract', timeout=300, fallback_unwind=5,
                         clause_note='the result is the whole ghost line (g_src_len bytes, with its newline if it has one), whatever its length relative to the 256-byte block',
-                        replay=Replay(driver='C14/fs.cc', mode='fgets_line', sources=ALL_LIB, small_define='VERIF_SMALL')))
+                        replay=Replay(driver='C14/fs.cc', mode='fgets_line', sources=ALL_LIB, small_define='VERIF_SMALL_LINE')))
     uf = fd_unit(ctx, src)
     uf.write()
     ctx.functions_under_contract += uf.functions
@@ -265,10 +282,10 @@ def plan(ctx):
     for fn in ('basename', 'dirname'):
         groups.append(Group(name='Filesystem.' + fn, harness=HP, entry='h_' + fn, function=fn, enforce='phosg_' + fn, replace=['c14_rfind', 'vstr_assign'],
                             clause_note='the part after / before the last slash (ghost g_ls), byte for byte (ghost index)',
-                            replay=Replay(driver='C14/fs.cc', mode='dirname_basename', sources=ALL_LIB)))
+                            replay=Replay(driver='C14/fs.cc', mode='dirname_basename', sources=ALL_LIB, small_define='VERIF_SMALL')))
     groups.append(Group(name='Filesystem.dirname+basename.recompose', harness=HP, entry='l_recompose', function='dirname / basename',
                         replace=['phosg_dirname', 'phosg_basename'], kind='lemma', min_post=3,
-                        replay=Replay(driver='C14/fs.cc', mode='dirname_basename', sources=ALL_LIB)))
+                        replay=Replay(driver='C14/fs.cc', mode='dirname_basename', sources=ALL_LIB, small_define='VERIF_SMALL')))
     uq = poll_unit(ctx, src)
     uq.write()
     ctx.functions_under_contract += uq.functions
@@ -283,14 +300,72 @@ def plan(ctx):
                             stage1=60, timeout=300, replay=Replay(driver='C14/fs.cc', mode='poll_ops', extra=[fn], sources=ALL_LIB, small_define='VERIF_SMALL')))
     groups.append(Group(name='Poll.empty', harness=HQ, entry='h_empty', function='Poll::empty', enforce='Poll_empty'))
     groups.append(Group(name='Poll.add.pred', harness=HQ, entry='h_add_pred', function='Poll::add (comparison lambda)', enforce='Poll_add_pred'))
+    groups.append(Group(name='Poll.history[add,add,remove;n<=3]', harness='harness/C14/poll_bounded.c', entry='h_poll_bounded', function='Poll::add / remove / empty',
+                        kind='bounded', bound='vectors of at most 3 registered descriptors (symbolic fds and events), history add(fd); add(fd); remove(fd); '
+                                              'executable models of lower_bound / upper_bound / insert / erase (stubs/C14_pvec_impl.h), loops unwound 8 times',
+                        cbmc_flags=['--unwind', '8', '--unwinding-assertions'], defines=['PB_N=3'], min_post=8, timeout=300, stage1=60,
+                        replay=Replay(driver='C14/fs.cc', mode='poll_add_twice', sources=ALL_LIB)))
     groups.append(Group(name='Poll.remove.pred', harness=HQ, entry='h_remove_pred', function='Poll::remove (comparison lambda)', enforce='Poll_remove_pred'))
     return groups
 
 
-EXPLANATION = ''
-TRUSTED = []
-ASSUMPTIONS = []
-DROPS = ''
-NOT_DECIDED = []
+EXPLANATION = ('The read helpers of src/Filesystem.cc are put under function contracts whose source/sink is a GHOST STREAM (stubs/C14_io.h): '
+               'g_src_len bytes in total, g_pos delivered so far, sticky end-of-file / error flags, content through one ghost position. '
+               'read(2) may return ANY count in [1, min(n, remaining)] (0 only at end-of-file, -1 on error), so one proof covers every '
+               'chunking: pipes with delayed writers, short reads, sockets. read_all(int) / read_all(FILE*) / fgets(FILE*) are loops with '
+               'loop contracts over a model of the block container (stubs/C14_vsv.h); the exact-size family, the single-call readers, '
+               'load_file / save_file, scoped_fd, basename / dirname and Poll are loop-free and discharged over their whole input domain; '
+               '"closed exactly once" and dirname + "/" + basename == p are lemmas over the contracts. Poll::add / remove are proved for '
+               'vectors of ANY length, described around the key (lower-bound position, present flag; stubs/C14_pvec.h).')
+TRUSTED = [
+    'stubs/C14_io.h: contract-only models of read, pread, write, pwrite, close (POSIX.1-2017) and fread, fwrite, fgetc, fgets, feof, ferror, strlen '
+    '(ISO C 7.21/7.24) over the ghost stream; open / fstat as "descriptor or exception" / "reported size or exception"',
+    'stubs/C14_vsv.h: model of std::vector<std::string> / std::deque<std::string> as a sequence of blocks summarised by (count, total size, live last block, '
+    'one ghost byte of the concatenation); sequential iteration; phosg::join(blocks) with the empty delimiter = concatenation',
+    'stubs/C14_pvec.h: std::vector<struct pollfd> with iterators as indices; std::lower_bound / std::upper_bound on a strictly sorted vector described around the key',
+    'stubs/C14_str.h: std::string::rfind(char) answered from the ghost description of the path (g_ls = position of the last slash), substr per [string.substr]',
+    'stubs/vstr.h (std::string model), contracts/C14_*.h (the specification clauses, written from the property statement)',
+]
+ASSUMPTIONS = [
+    'ASSUMED syscall / stdio contracts (stubs/C14_io.h): read() returns -1, or 0 only at end-of-file, or any k in [1, min(n, remaining)] and stores the next k stream bytes; '
+    'fread() returns a short count only at end-of-file or on error; fgets(buf, n) stores exactly min(n-1, rest of line) characters plus a NUL; '
+    'write()/fwrite() may accept fewer bytes than asked; the eof indicator is only set at end-of-file',
+    'the line given to fgets(FILE*) contains no NUL byte (the C fgets interface cannot report a length: strlen of the filled buffer = number of characters stored)',
+    'read_all / fgets start on a fresh stream (position 0, no eof / error indicator set)',
+    'allocation succeeds: result strings have capacity for the data (vstr capacity model), block buffers of the container model are large enough',
+    'scoped_fd::operator=(int) is not given the descriptor the object already owns (that would close it and keep it)',
+    'Poll: the vector is strictly sorted by fd on entry (representation invariant; the contracts re-establish it around the key and keep every other entry in order)',
+    'sizes below 2^47 bytes (cbmc object-size limit)',
+]
+DROPS = ('std::string results -> vstr out-parameters; FILE -> opaque C14_FILE; io_error / runtime_error / cannot_open_file -> verif_exc flag (message arguments such as '
+         'string_printf(...) and fileno(f) dropped with the throw expression); function-local `static const ssize_t read_size` -> enum constant; '
+         'vector<string> / deque<string> locals -> vsv model (buffers.back().data() -> vsv_back_data, range-for -> index loop over vsv_at); '
+         'for (;;) -> while (1) where a loop contract is attached; scoped_fd class -> struct { int fd; } with explicit self, member-initialiser lists emitted as assignments; '
+         'the local scoped_fd of load_file / save_file -> descriptor from the open stub (its destructor call at scope exit is not modelled there); '
+         'Poll iterators -> indices, the comparison lambdas extracted as functions of their own; struct pollfd -> c14_pollfd')
+NOT_DECIDED = [
+    'load_file(save_file(d)) = d through a real file system: that the bytes a later read() delivers are the bytes an earlier write() accepted is a property of the kernel, '
+    'not of phosg; only the two halves are proved (save_file hands exactly d to write() or throws; load_file returns exactly the fstat-size bytes read() delivered or throws)',
+    'real pipes with staggered writers, link-time interposition of read(): covered only through the ASSUMED read(2) contract (any short-read plan), not observed on a kernel '
+    '(the native replay drivers do use a real pipe / fopencookie / tmpfile, but only for counterexamples)',
+    'list_directory / list_directory_sorted return exactly the entry names present: restates opendir/readdir',
+    'recursive unlink removes the whole tree: restates rmdir/unlink/readdir; recursion over an unbounded directory tree',
+    'Poll::poll (the revents map) and the exhaustive add/remove histories over 3 descriptors: single operations are proved for any vector instead; '
+    'that strict sortedness of the WHOLE vector is preserved is only shown around the key plus "all other entries kept in order"',
+    'scoped_fd(const char*, int, mode_t) / open(): wrap open(2)',
+    'lines containing NUL bytes in fgets(FILE*)',
+]
 CLAIMED = True
-MANIFEST = dict(category='proof', text='', note='', technique='')
+MANIFEST = dict(
+    category='proof',
+    text=('read_all(int), read_all(FILE*), fgets(FILE*) (loop contracts), readx/preadx/freadx/writex/pwritex/fwritex in both overloads, fgetcx, read(int,size_t), '
+          'fread(FILE*,size_t), load_file, save_file, every member of scoped_fd, basename, dirname, Poll::add/remove/empty are extracted from src/Filesystem.cc on every run and '
+          'proved against contracts taken from the statement: the result is exactly the bytes of a ghost source stream up to end-of-file / exactly n bytes / exactly the line, '
+          'or an exception -- for EVERY way read() may chunk the data (any short-read plan, unbounded stream length). Descriptors are closed exactly once (ghost close '
+          'counters, lifetime lemmas), dirname(p)+"/"+basename(p)=p is a lemma over the two contracts, Poll behaves as a map at the key for vectors of any length.'),
+    note=('Everything rests on ASSUMED contracts for the system calls and stdio functions (stubs/C14_io.h, written from POSIX / ISO C) and on models of the block container, '
+          'the pollfd vector and std::string (stubs/C14_vsv.h, C14_pvec.h, C14_str.h, vstr.h). Not decided: anything that only restates the kernel -- real pipes, '
+          'list_directory, recursive unlink, load_file(save_file(d)) through a real file system -- and Poll::poll. Lines with NUL bytes are outside the fgets claim.'),
+    technique=('function contracts + loop contracts (requires/ensures/assigns, loop_invariant/decreases) enforced with goto-instrument --dfcc, callees and libc/syscalls replaced by '
+               'contract-only stubs over a ghost stream, discharged by cbmc (SAT/SMT portfolio); lemmas over the contracts'),
+)
